@@ -12,6 +12,35 @@ pub const SHAPES: [&str; 9] = ["seq-inline", "seq-lines", "map-lines", "explicit
 pub const APIS: [&str; 10] = ["iterate", "push", "load", "load-owned", "load-marked", "load+clone", "load+eq", "load+hash", "load+emit", "load-thread"];
 
 pub fn make_input(shape: &str, depth: usize) -> String {
+    make_input_leaf(shape, depth, None)
+}
+
+/// Innermost nodes used by the low-depth sweep: the shapes above with something other than a
+/// one-letter scalar at the bottom.
+pub const LEAVES: [&str; 6] = ["a", "\"ab\\ncd\"", "\"x: y\\n- z\\n\"", "[]", "{}", "'it''s'"];
+
+/// `leaf`: None = the shape's own innermost node.
+pub fn make_input_leaf(shape: &str, depth: usize, leaf: Option<&str>) -> String {
+    let mut s = make_input_default(shape, depth);
+    if let Some(l) = leaf {
+        // every shape has exactly one innermost scalar, written last before the closers
+        let (pat, with): (&str, String) = match shape {
+            "seq-inline" | "explicit-key" => ("a\n", format!("{l}\n")),
+            "seq-lines" | "alternating" => ("a\n", format!("{l}\n")),
+            "map-lines" => ("v\n", format!("{l}\n")),
+            "flow-seq" => ("[]", format!("[{l}]")),
+            "flow-map" => ("b}", format!("{l}}}")),
+            "flow-map-json" => ("1}", format!("{l}}}")),
+            _ => ("[a]", format!("[{l}]")),
+        };
+        if let Some(i) = s.rfind(pat) {
+            s.replace_range(i..i + pat.len(), &with);
+        }
+    }
+    s
+}
+
+fn make_input_default(shape: &str, depth: usize) -> String {
     let mut s = String::new();
     match shape {
         "seq-inline" => {
@@ -168,7 +197,85 @@ impl std::fmt::Write for ProbeWriter {
 }
 
 /// Body of a child process: run one scenario and print breadcrumbs / measurements.
+/// Low-depth sweep (one child process per shape): every depth 1..=max, every leaf, every operation,
+/// each under catch_unwind. A panic is neither success nor an error value.
+fn sweep(shape: &str, max: usize) {
+    use crate::util::catch;
+    let mut cases = 0u64;
+    let mut panics = 0u64;
+    let mut errors = 0u64;
+    let mut report = |depth: usize, leaf: usize, op: &str, msg: &str, panics: &mut u64| {
+        *panics += 1;
+        if *panics <= 40 {
+            crumb(&format!("sweep-panic {depth} {leaf} {op} {}", msg.replace('\n', " ")));
+        }
+    };
+    for depth in 1..=max {
+        for (li, leaf) in LEAVES.iter().enumerate() {
+            let input = make_input_leaf(shape, depth, Some(leaf));
+            cases += 1;
+            if let Err(m) = catch(|| Parser::new_from_str(&input).take_while(|e| e.is_ok()).count()) {
+                report(depth, li, "iterate", &m, &mut panics);
+            }
+            let mut p = Probe { base: stack_pos(), max_stack: 0, depth: 0, max_depth: 0, events: 0 };
+            if let Err(m) = catch(|| Parser::new_from_str(&input).load(&mut p, true).is_ok()) {
+                report(depth, li, "push", &m, &mut panics);
+            }
+            if let Err(m) = catch(|| YamlOwned::load_from_str(&input).map(|d| d.len()).unwrap_or(0)) {
+                report(depth, li, "load-owned", &m, &mut panics);
+            }
+            if let Err(m) = catch(|| MarkedYaml::load_from_str(&input).map(|d| d.len()).unwrap_or(0)) {
+                report(depth, li, "load-marked", &m, &mut panics);
+            }
+            let docs = match catch(|| Yaml::load_from_str(&input)) {
+                Err(m) => {
+                    report(depth, li, "load", &m, &mut panics);
+                    continue;
+                }
+                Ok(Err(_)) => {
+                    errors += 1;
+                    continue;
+                }
+                Ok(Ok(d)) => d,
+            };
+            if let Err(m) = catch(|| docs.clone() == docs) {
+                report(depth, li, "clone-eq", &m, &mut panics);
+            }
+            if let Err(m) = catch(|| {
+                let mut h = std::collections::hash_map::DefaultHasher::new();
+                docs.hash(&mut h);
+                h.finish()
+            }) {
+                report(depth, li, "hash", &m, &mut panics);
+            }
+            for (compact, multi) in [(true, false), (false, false), (true, true), (false, true)] {
+                let r = catch(|| {
+                    let mut out = String::new();
+                    for d in &docs {
+                        let mut e = YamlEmitter::new(&mut out);
+                        e.compact(compact);
+                        e.multiline_strings(multi);
+                        let _ = e.dump(d);
+                        out.push('\n');
+                    }
+                    out.len()
+                });
+                if let Err(m) = r {
+                    report(depth, li, &format!("emit(compact={compact},multiline_strings={multi})"), &m, &mut panics);
+                }
+            }
+        }
+    }
+    crumb(&format!("sweep-done cases {cases} panics {panics} errors {errors}"));
+    crumb("result ok");
+}
+
 pub fn child(shape: &str, depth: usize, api: &str) {
+    if api == "sweep" {
+        sweep(shape, depth);
+        crumb("done");
+        return;
+    }
     let input = make_input(shape, depth);
     crumb(&format!("input-bytes {}", input.len()));
     let api_owned = api.to_string();
@@ -286,6 +393,8 @@ pub struct Outcome {
     pub result: String,
     pub probes: Vec<(String, u64)>,
     pub max_depth: u64,
+    pub sweep_panics: Vec<String>,
+    pub sweep_cases: u64,
 }
 
 pub fn run_scenario(shape: &str, depth: usize, api: &str) -> Outcome {
@@ -327,7 +436,7 @@ pub fn run_scenario(shape: &str, depth: usize, api: &str) -> Outcome {
         };
         Ok(std::process::Output { status, stdout: t1.join().unwrap_or_default(), stderr: t2.join().unwrap_or_default() })
     })();
-    let mut o = Outcome { status: String::new(), died: false, last_phase: "start".into(), result: String::new(), probes: vec![], max_depth: 0 };
+    let mut o = Outcome { status: String::new(), died: false, last_phase: "start".into(), result: String::new(), probes: vec![], max_depth: 0, sweep_panics: vec![], sweep_cases: 0 };
     match out {
         Err(e) => {
             o.status = format!("spawn failed: {e}");
@@ -349,6 +458,10 @@ pub fn run_scenario(shape: &str, depth: usize, api: &str) -> Outcome {
                         if let Some(i) = toks.iter().position(|t| *t == "max-depth") {
                             o.max_depth = toks.get(i + 1).and_then(|x| x.parse().ok()).unwrap_or(0);
                         }
+                    } else if let Some(p) = r.strip_prefix("sweep-panic ") {
+                        o.sweep_panics.push(p.to_string());
+                    } else if let Some(p) = r.strip_prefix("sweep-done cases ") {
+                        o.sweep_cases = p.split_whitespace().next().and_then(|x| x.parse().ok()).unwrap_or(0);
                     } else if r == "done" {
                         done = true;
                     } else if r == "timeout" {
@@ -469,6 +582,49 @@ pub fn run_c11(tier: &str, _seed: u64, shard: u64, nshards: u64, stats: &mut Sta
             }
         }
     }
+    // every depth up to a few hundred levels, with other innermost nodes and emitter settings
+    let max = if tier == "thorough" { 700 } else { 280 };
+    for (si, shape) in SHAPES.iter().enumerate() {
+        if ((SHAPES.len() * APIS.len() + si) as u64) % nshards != shard {
+            continue;
+        }
+        let max = max.min(max_depth_for(shape));
+        let o = run_scenario(shape, max, "sweep");
+        stats.eval(Some(format!("{shape}/{max}/sweep").as_bytes()));
+        stats.cnt("scenarios", 1);
+        sweep_violations(shape, max, &o, stats);
+    }
+}
+
+fn sweep_violations(shape: &str, max: usize, o: &Outcome, stats: &mut Stats) {
+    stats.cnt("sweep_cases", o.sweep_cases);
+    stats.cnt("sweeps", 1);
+    let mut seen = std::collections::BTreeSet::new();
+    for p in &o.sweep_panics {
+        // "<depth> <leaf> <op> <message>"
+        let mut it = p.splitn(4, ' ');
+        let depth: usize = it.next().and_then(|x| x.parse().ok()).unwrap_or(0);
+        let leaf: usize = it.next().and_then(|x| x.parse().ok()).unwrap_or(0);
+        let op = it.next().unwrap_or("?").to_string();
+        let msg = it.next().unwrap_or("");
+        let opclass = op.split('(').next().unwrap_or("?").to_string();
+        let sig = format!("C11/panic/{opclass}/{}/{}", shape_class(shape), crate::util::panic_site(msg));
+        if !seen.insert(sig.clone()) {
+            continue;
+        }
+        stats.violation(Violation {
+            sig,
+            msg: format!("{op} panicked on shape {shape} nested {depth} levels around {}: {msg}", LEAVES.get(leaf).unwrap_or(&"?")),
+            case: J::obj(vec![("shape", J::s(shape)), ("depth", J::Int(max as i64)), ("api", J::s("sweep"))]),
+        });
+    }
+    if o.died {
+        stats.violation(Violation {
+            sig: format!("C11/abort/sweep/{}/depth<3000", shape_class(shape)),
+            msg: format!("child process sweeping shape {shape} over depths 1..={max}: {}", o.status),
+            case: J::obj(vec![("shape", J::s(shape)), ("depth", J::Int(max as i64)), ("api", J::s("sweep"))]),
+        });
+    }
 }
 
 pub fn replay_c11(case: &J, stats: &mut Stats) {
@@ -477,6 +633,10 @@ pub fn replay_c11(case: &J, stats: &mut Stats) {
     let api = case.str_of("api");
     let o = run_scenario(&shape, depth, &api);
     stats.eval(Some(format!("{shape}/{depth}/{api}").as_bytes()));
+    if api == "sweep" {
+        sweep_violations(&shape, depth, &o, stats);
+        return;
+    }
     eprintln!("replay C11: {shape} depth {depth} api {api}: {} (last phase {}, result {})", o.status, o.last_phase, o.result);
     if o.died {
         stats.violation(Violation {
